@@ -216,7 +216,7 @@ func orstep(a *hx.Args, in *input, res *hx.Result) {
 				undo()
 				ek := "or/" + real + "/" + classKey(sc.tail) + "|" + cc.K
 				res.Eval(ek)
-				dd := d(hx.M{"case": sc.c, "path": pathString(it.Path), "what": what, "verdict": v, "branch_of_leaf": cc.Branch})
+				dd := d(hx.M{"case": sc.c, "path": pathString(it.Path), "change": what, "verdict": v, "branch_of_leaf": cc.Branch})
 				switch {
 				case strings.HasPrefix(v, "panic"):
 					res.Violation("panic", fmt.Sprintf("expStep verification panicked after %s %s: %s", cc.K, pathString(it.Path), v), dd)
